@@ -42,6 +42,7 @@ class Script:
         self.fs: List[Any] = [0] * (B + 1)
         self.kb: Any = NONE  # pre-hook fault
         self.ka: Any = NONE  # post-hook fault
+        self.zpost: Any = None  # value the post-solution hook stores into Z at t (None: the hook writes nothing)
 
 
 def check_names(N: int) -> List[str]:
@@ -102,6 +103,8 @@ def make_scripted(N: int, *, with_z: bool = False, with_x: bool = True, base=Non
                 raise HookFault('scripted post-hook fault')
             if ka == WARN:
                 warnings.warn('scripted post-hook warning', RuntimeWarning)
+            if with_z and s.zpost is not None:
+                self.__dict__['_Z'][t] = s.zpost   # a post-solution calculation that changes a (non-check) variable
             st['log'].append(('after_done', iteration))
 
         def _evaluate(self, t, *, errors='raise', catch_first_error=True, iteration=None, **kwargs):
@@ -329,6 +332,8 @@ def ref_solve_t(
             if _tb(script.ka == WARN) and strict:
                 o.status = o.iters = None
                 return fail_exc('SolutionError', 'RuntimeWarning')
+            if script.with_z and script.zpost is not None:
+                cells['Z'][tc] = script.zpost
             o.status, o.iters = '.', k
             o.kind, o.ret = 'ret', True
             return o
